@@ -20,7 +20,8 @@ def insertByTag (p : Nat × String) : Fields → Fields
 def sortByTag (f : Fields) : Fields := f.foldr insertByTag []
 
 def renderWire (cfg : Cfg) (m : OutMsg) : String :=
-  let f := sortByTag (m.f ++ [(49, cfg.sender), (56, cfg.target)])
+  let f := sortByTag (m.f ++ [(49, cfg.sender), (56, cfg.target)]
+                      ++ (match m.last with | some v => [(369, toString v)] | none => []))
   "w 35=" ++ m.kind ++ " 34=" ++ toString m.seq ++ String.join (f.map fun p => " " ++ toString p.1 ++ "=" ++ p.2)
 
 def renderObs (cfg : Cfg) : Obs → String
@@ -78,12 +79,18 @@ def parseCfg? (toks : List String) : Option (Cfg × Int × Int) := do
     | some v => (match v.toNat? with
       | some n => if n < 86400 then some (some n) else none
       | none => none)
+  -- EnableLastMsgSeqNumProcessed: `lsp=0|1`; absent = off
+  let lsp : Bool ← match kvLookup kv "lsp" with
+    | none => some false
+    | some "1" => some true
+    | some "0" => some false
+    | some _ => none
   let cfg : Cfg := {
     initiator := ← b "init", bs := ← n "bs", chunk := ← n "chunk",
     resetOnLogon := ← b "rol", resetOnLogout := ← b "rolo", resetOnDisconnect := ← b "rod",
     refreshOnLogon := ← b "refresh", persist := ← b "persist", skipLatency := ← b "skiplat",
     hb := ← i "hb", hbOverride := ← b "hbo", applVer := if (← n "bs") == 5 then "9" else "",
-    lookThroughPending := ← b "ltp", resetSeqTime := rst }
+    lookThroughPending := ← b "ltp", resetSeqTime := rst, lastSeqProcessed := lsp }
   pure (cfg, ← i "s0", ← i "t0")
 
 def timerOf? : String → Option TimerEv
